@@ -34,7 +34,9 @@ RULE = ("left documents x merge paths x right documents x policies.  Small part:
         "stood there and the right document; a created path holds the right document; outcome class (document, merge error, "
         "YAML Path error) equals the model's, any other exception is a violation.  Correspondence: Merger.data equals the "
         "Lean mergeAt exactly.  A sample runs through the yaml-merge main() with real files: an output file exists iff the "
-        "merge succeeded.  strip_path_prefix is compared with the model on a grid of key paths.  distinct_nontrivial = "
+        "merge succeeded.  strip_path_prefix is compared with the model on a grid of key paths.  Random part: 160 000 cases "
+        "(quick) / 300 000 (thorough; trimmed from 2 000 000 - a random case costs ~12 small-layer cases and the thorough run needed "
+        "> 14 000 CPU-seconds, > 45 min on the shared machine; the complete small layers are untouched).  distinct_nontrivial = "
         "distinct (l, path, r, policy) cases whose result differs from the left document.")
 
 SCAL_R = [1, 5, 0, "x", "b", "new", True, False, 2.5, "", "5", "true", "1.50", "-3", "False", "long text"]
@@ -834,7 +836,7 @@ def run(chk: core.Check):
                          len(small_l), lb, len(small_r), len(r3), len(l4), lb + 1))
         for lefts, rights, npol, per in grids:
             jobs += [("EXH", lefts[i:i + per], rights, npol, off + i * 50) for i in range(0, len(lefts), per)]
-        nrand = int(os.environ.get("YPV_NRAND") or (160000 if tier == "quick" else 2000000))
+        nrand = int(os.environ.get("YPV_NRAND") or (160000 if tier == "quick" else 300000))
         per_job = 2000
         jobs += [("RAND", chk.seed * 100003 + i, per_job) for i in range(nrand // per_job)]
         chk.exhaustive = True
